@@ -582,6 +582,8 @@ def _sentinel(ctx, E, shared, validated):
                  '(division is a true inverse, hypothesis hdiv)', 'hypothesis',
                  bool(div_margin > 0.1 and q_clip_err <= 1e-13),
                  f'min |1 + (Cp_vapor/Cp - 1) q| = {div_margin:.3f}; |clip q - q| / |q| = {q_clip_err:.1e}')
+  ctx.notes.append(f'T4.3/T4.4 side conditions on the generated states: min |1 + (Cp_vapor/Cp - 1) q| = {div_margin:.3f}, '
+                   f'|clip q - q| / |q| = {q_clip_err:.1e}')
   return must_invariant_kinds
 
 
